@@ -115,6 +115,7 @@ def run(ctx):
 
     r5 = rep.rule('C03.5-restart', 'R-TABLE', 'pqstart re-adds every message with an info file; pqadd never drops a message on a stat error (-> pqfail); startup scan precedes the loop')
     attach(r5, qsend.analyse_pqadd(db, rep), prefixes=['pqadd:'])
+    attach(r5, qsend.job_slot_sites(db, rep))
     pst = prog.fn('pqstart', 'qmail-send.c')
     pa = pst.calls('pqadd')
     rn = pst.calls('readsubdir_next')
@@ -125,7 +126,8 @@ def run(ctx):
         ok = any(c.strip().k == 'bin' and c.strip().op == '>' and c.strip().args[1].const == 0 and t is True for c, t in g)
     r5.check(ok, 'pqstart:pqadd-for-every-id-under-info', pst.unit + ':pqstart', 'pqstart must call pqadd(id) for every positive readsubdir_next over "info"')
     attach(r5, qsend.analyse_main(db, rep), only={'main:queue-scanned-at-startup-before-the-loop'})
-    r5.expect_min(5)
+    attach(r5, qsend.analyse_pqadd(db, rep), prefixes=['pqadd:'])
+    r5.expect_min(6)
 
     r6 = rep.rule('C03.6-durable-hand-over', 'R-TYPESTATE', 'info/local/remote are complete and fsynced before todo/<n> is given up; one output record per input record')
     attach(r6, td, only={'todo:info-SYNCED-before-todo-removal', 'todo:channel-files-SYNCED-before-todo-removal', 'todo:request-only-after-the-whole-envelope-was-read',
